@@ -181,7 +181,12 @@ def collect_information(exprs):  # noqa: C901
                     continue
                 sym, term = var
                 if sym.is_leaf():
-                    __sort_lookup[sym.data] = get_sort(term)
+                    try:
+                        __sort_lookup[sym.data] = get_sort(term)
+                    except Exception as e:
+                        # the sort of an ill-formed term is unknown
+                        logging.trace(f'Ignored sort of "{term}": {e}')
+                        __sort_lookup[sym.data] = None
                     __definition_node_ids.add(sym.id)
         # Determine sort of symbols introduced by quantifiers
         if (is_operator_app(node, 'exists')
